@@ -130,6 +130,17 @@ def C1(ctx: Ctx) -> RuleResult:
                     r.fail(f'main:{node.func.id}:unguarded', f'{node.func.id}() is called outside a try with an Exception handler', f'{f0.module.relpath}:{node.lineno}')
                 else:
                     r.ok(f'{node.func.id}() inside try/except Exception' + ('' if f0 is fi else f' (via {f0.name})'))
+    # python -m hpl: the status must reach the process exit code
+    mm = ctx.model.modules.get('hpl.__main__')
+    if mm is not None:
+        calls_main = [n_ for n_ in ast.walk(mm.tree) if isinstance(n_, ast.Call) and isinstance(n_.func, ast.Name) and n_.func.id == 'main']
+        for cm in calls_main:
+            wrapped = any(isinstance(x, ast.Call) and ast.unparse(x.func) in ('sys.exit', 'exit', 'SystemExit', 'raise SystemExit') and any(cm is y for a in x.args for y in ast.walk(a)) for x in ast.walk(mm.tree)) or \
+                any(isinstance(x, ast.Raise) and x.exc is not None and any(cm is y for y in ast.walk(x.exc)) for x in ast.walk(mm.tree))
+            if wrapped:
+                r.ok('__main__: sys.exit(main(...))')
+            else:
+                r.fail('__main__:exit-status', 'python -m hpl calls main() without passing its return value to sys.exit(): the process exits 0 whatever happened', f'{mm.relpath}:{cm.lineno}')
     r.floor('success paths', n_ok, 2)
     r.floor('parse calls', n_calls, 1)
     return r
@@ -248,6 +259,8 @@ def C3(ctx: Ctx) -> RuleResult:
                 if ad.kw('filter') is not None:
                     r.fail('main:json-filter', 'asdict(filter=...) drops fields: output no longer mirrors the AST field for field', fi.where)
                 an = d.kw('allow_nan')
+                if d.kw('ensure_ascii') == Const(False):
+                    r.fail('main:json-ascii', 'json.dumps(ensure_ascii=False): the document contains raw non-ASCII characters and print() raises UnicodeEncodeError on a stdout that cannot encode them; a parsing input then exits 1 without JSON', fi.where)
                 src = ad.args[0] if ad.args else None
                 leaves = [leaf for _, leaf in alternatives(src)] if src is not None else []
                 if not leaves or not all(isinstance(x, Call) and _parse_fn(x) is not None for x in leaves):
